@@ -172,9 +172,51 @@ def no_wrapped_rejects(ctx, tag):
                 raise ToolError("wrapped REJECT line in %s: shorten the reason texts of TraceHue.tla" % out)
 
 
+def equality_run(ctx, exe):
+    """Comparisons of whole colours (spec/Equality.tla): MC_Equality checks the laws of the component-wise model on every
+    pair of a small lattice of every shape and emits the pairs; harness/src/bin/eqcmp.rs runs them and its own
+    float-specific neighbourhoods of the thresholds on 38 types x f32/f64; TraceEquality.tla validates every call.
+    `==` departures where only the hue decides are C11's equality clause; all other departures are notes."""
+    # vacuity control on the shapes of up to two components with -coverage, then the full lattice without
+    r0 = tlc_mc(ctx, "MC_Equality", constants={"MaxN": 2, "Emit": "FALSE"}, tag="eq_model_cov", workers=4)
+    zero = coverage_zero_actions(r0.out_path, {"MC_Equality"})
+    if zero:
+        raise ToolError("vacuity: actions never taken in MC_Equality: %s" % zero)
+    r = tlc_mc(ctx, "MC_Equality", constants={"MaxN": 3 if ctx.quick else 4}, tag="eq_model", workers=6, coverage=False,
+               timeout=3000)
+    cases = extract_prints(r.out_path, "REPLAY")
+    if len(cases) < 1500:
+        raise ToolError("MC_Equality emitted only %d cases" % len(cases))
+    cp = ctx.p("eq.cases.ndjson")
+    with open(cp, "w") as f:
+        f.write("\n".join(cases) + "\n")
+    tp = ctx.p("eq.ndjson")
+    rr = run_bin(exe, ["--tlc", cp, "--tier", ctx.tier, "--out", tp], env={"VERIF_SEED": ctx.seed})
+    stats = json.loads((rr.stderr or "{}").strip().splitlines()[-1])
+    res = validate_trace(ctx, "TraceEquality", tp, stateless=True, chunk_events=4000 if ctx.quick else 12000, tag="eq")
+    no_wrapped_rejects(ctx, "eq")
+    ctx.cov["traces_validated_against_impl"] += res.events - len(res.rejected)
+    add_samples(ctx, tp, n=2, every=9973)
+    for (line, ev, info, _scen) in res.rejected:
+        fa, fb = [dy_to_float(x) for x in ev.get("a", [])], [dy_to_float(x) for x in ev.get("b", [])]
+        coords = {"kind": "colour-eq", "op": ev.get("op"), "ty": ev.get("ty"), "t": ev.get("t")}
+        what = ("%s<%s>: %r == %r answered %s (!= answered %s), but the two differ only in the hue component and %s" % (
+            ev.get("ty"), ev.get("t"), fa, fb, ev.get("r"), ev.get("nr"),
+            "equality of hues is congruence modulo 360 (exactly congruent angles are equal, angles further apart than "
+            "rounding error are not), and != is its negation"))
+        report(ctx, coords, what, {"bin": "eqcmp", "event": ev, "trace_line": line, "how": "./check C11 --replay <this file>"})
+    notes = sorted(set(res.notes))
+    for n in notes[:40]:
+        print("NOTE: outside the listed properties, a colour comparison departs from the component-wise model: " + n)
+    return {"events": res.events, "model_cases": len(cases), "per_op": stats.get("per_op"), "panics": stats.get("panics"),
+            "types": stats.get("types"), "departures_outside_the_listed_properties": notes[:40],
+            "model": "MC_Equality: %s distinct states" % r.distinct}
+
+
 def run(ctx):
-    bins = cargo_build(["hue"])
+    bins = cargo_build(["hue", "eqcmp"])
     n_int, notes = model_run(ctx)
+    eq_info = equality_run(ctx, bins["eqcmp"])
     tp = ctx.p("hue.ndjson")
     r = run_bin(bins["hue"], ["--tier", ctx.tier, "--out", tp], env={"VERIF_SEED": ctx.seed})
     stats = json.loads((r.stderr or "{}").strip().splitlines()[-1])
@@ -213,11 +255,23 @@ def run(ctx):
                          "tolerances": {"Eps": "8 ulp_T(max(|x|,360))", "eq_unequal_band": "Eps(x1)+Eps(x2)",
                                         "radians": "rel 16u (u = 2^-Prec) + 2^10 min-subnormal", "cartesian_dir": "128u * (|a|+|b|)",
                                         "cartesian_norm": "16u", "to_u8": "half a code step + 256*Eps"},
-                         "model_notes": notes})
+                         "model_notes": notes, "colour_comparisons": eq_info})
 
 
 def replay(ctx, path):
     rp = json.load(open(path))["replay"]
+    if rp.get("bin") == "eqcmp":
+        bins = cargo_build(["eqcmp"])
+        tp = ctx.p("replay.ndjson")
+        run_bin(bins["eqcmp"], ["--one", json.dumps(rp["event"]), "--out", tp])
+        res = validate_trace(ctx, "TraceEquality", tp, stateless=True, tag="replay")
+        no_wrapped_rejects(ctx, "replay")
+        if res.rejected:
+            print("VIOLATION property=C11 replay=%s" % path)
+            print("  still rejected: %s" % json.dumps(res.rejected[0][1])[:300])
+            return 1
+        print("replay accepted: %s" % open(tp).readline()[:300])
+        return 0
     bins = cargo_build(["hue"])
     tp = ctx.p("replay.ndjson")
     run_bin(bins["hue"], ["--one", json.dumps(rp["event"]), "--out", tp])
